@@ -215,7 +215,12 @@ func c16ConcurrentProbe(c *ctx) {
 		}(w)
 	}
 	pg, rerr := c16ReadFull(conn.peer, 2*(each/piece+1)*piece, 5*time.Second)
-	wg.Wait()
+	wdone := make(chan struct{})
+	go func() { wg.Wait(); close(wdone) }()
+	select {
+	case <-wdone:
+	case <-time.After(5 * time.Second): // writers stuck on a dead session: leave them behind
+	}
 	var na, nb int
 	okA, okB := true, true
 	for _, x := range pg {
